@@ -77,7 +77,7 @@ func (x *Exec) callStatic(fr *Frame, st *State, fn *ssa.Function, args []*SV, fr
 		if fr.depth+1 > maxInlineDepth {
 			unsupportedf("inline depth exceeded calling %s", fn)
 		}
-		if li := x.eng.loopInfo(fn); li != nil && x.eng.loopSpec(fn, 0) == nil {
+		if li := x.eng.loopInfo(fn); li != nil && x.eng.loopSpec(fn, 0) == nil && !x.eng.unrollable(fn) {
 			// a callee with loops and no contract cannot be inlined
 			x.notes = append(x.notes, "callee with loop havocked: "+key)
 			x.havocCall(fr, st, fn.Signature, site, k)
@@ -599,6 +599,11 @@ func (e *Engine) callEffects(x *Exec, cc *ssa.CallCommon, eff *effects, depth in
 				eff.comps[c] = true
 			}
 		}
+		return
+	}
+	if e.unrollable(fn) {
+		// flag-passing helpers: write only their own (fresh) locals
+		eff.allocates = true
 		return
 	}
 	if fn.Blocks != nil && e.inRepo(fn) && depth < 6 {
